@@ -206,7 +206,7 @@ pub fn run(args: &Args) -> Report {
     let rids: Vec<ResourceIdentifier> = ["ri.a..b.c", "ri.svc.inst-1.type.Loc_1.-", "ri.a.b.c.A.b-_9"].iter().map(|s| ResourceIdentifier::new(s).unwrap()).collect();
 
     // two rigs: bodies whole, and bodies in 1-byte chunks both ways
-    let rigs = [Rig::new(Options::default), Rig::new(|| Options { request_chunk: 1, response_chunk: 1 }), Rig::new(|| Options { request_chunk: 3, response_chunk: 2 })];
+    let rigs = [Rig::new(Options::default), Rig::new(|| Options { request_chunk: 1, response_chunk: 1 }), Rig::new(|| Options { request_chunk: 3, response_chunk: 2 }), Rig::new(|| Options { request_chunk: 4 | crate::loopback::WITH_EMPTY_CHUNKS, response_chunk: 3 | crate::loopback::WITH_EMPTY_CHUNKS })];
     let rig = &rigs[0];
     let mut cx = Ctx { r: &mut report, rig };
 
@@ -578,7 +578,7 @@ pub fn run(args: &Args) -> Report {
     report.sample("body", json!({"endpoint": "bodyUnion", "body": {"type": "brandNew", "brandNew": {"a": [1, "x"]}}, "chunking": "1-byte chunks both ways"}));
     report.bound("strings_per_position", strings.len());
     report.bound("pair_alphabet", reduced.len());
-    report.bound("body_chunkings", json!(["whole", "1-byte", "3-byte request / 2-byte response"]));
+    report.bound("body_chunkings", json!(["whole", "1-byte", "3-byte request / 2-byte response", "4/3-byte chunks each followed by an empty chunk"]));
     report.nontrivial = report.states;
     report.rule = "states = (endpoint, argument values, scripted return): every ASCII code point, UTF-8 boundary, look-alike and reserved-character pair in every string position of path/query/header parameters, pairs of positions over a reduced alphabet, one-hot scalar alphabets, collections of 0..3 elements, bodies (objects, unions incl. unknown variants, any, aliases, double sets, binary of 0/1/4 chunks) under three body chunkings; each state through the generated blocking and async client and endpoints".into();
     report.assumptions.push("header values outside visible ASCII (0x21-0x7e) may be refused by client or server, never delivered altered".into());
